@@ -372,7 +372,10 @@ theorem cap_runState_step (states : Json) (name : Str) (state data ctx : Json) (
         · cap_step
         · rename_i params hp
           simp only [St.closeKeep_clock, St.closeKeep_counts]
-          obtain ⟨l, hl, hlt⟩ := taskLimit_le_exec (taskDeadline state st.clock) D st.clock
+          split
+          · cap_step
+          rename_i own hown
+          obtain ⟨l, hl, hlt⟩ := taskLimit_le_exec own D st.clock
           simp only [hdl, hl, Option.map_some]
           split
           · cap_step
